@@ -98,15 +98,25 @@ void splinetable<Alloc>::fit(const ::ndsparse& data,
 		                       +") shoulb be less than the number of spline dimensions ("
 		                       +std::to_string(data.ndim)+")");
 	
+	//From here on the table is modified; if anything below fails (an
+	//allocation, the fit itself) release what has been built and leave
+	//the table empty
+	struct partial_guard{
+		splinetable* table;
+		~partial_guard(){ if(table) table->release_partial(); }
+	} guard{this};
+	
 	//Initialize variables
 	ndim=data.ndim;
 	order = allocate<uint32_t>(ndim);
 	std::copy(splineOrder.begin(),splineOrder.end(),order);
 	this->knots = allocate<double_ptr>(ndim);
+	std::fill(this->knots,this->knots+ndim,nullptr);
 	nknots = allocate<uint64_t>(ndim);
 	for(uint32_t i=0; i<ndim; i++)
 		nknots[i]=knots[i].size();
 	extents = allocate<double_ptr>(ndim);
+	std::fill(extents,extents+ndim,nullptr);
 	extents[0] = allocate<double>(2*ndim);
 	naxes = allocate<uint64_t>(ndim);
 	for(uint32_t i=0; i<ndim; i++)
@@ -172,6 +182,7 @@ void splinetable<Alloc>::fit(const ::ndsparse& data,
 	cholmod_l_finish(&cholmod_state);
 	if(result!=0)
 		throw std::runtime_error("GLAM fit failed");
+	guard.table=nullptr;
 }
 	
 } //namespace photospline
